@@ -514,6 +514,19 @@ func (v *UnixVolume) Untrash(loc string) (err error) {
 			foundTrash = true
 			err = v.os.Rename(v.blockPath(f.Name()), v.blockPath(loc))
 			if err == nil {
+				// Give the restored block a current timestamp, as
+				// S3Volume.Untrash does. The trashed copy is at
+				// least BlobSigningTTL old; if it has just replaced
+				// a newer copy of the same block, keeping its old
+				// timestamp would let the next trash list remove a
+				// block whose Put or Touch was just acknowledged.
+				ts := time.Now()
+				v.os.stats.TickOps("utimes")
+				v.os.stats.Tick(&v.os.stats.UtimesOps)
+				if tserr := os.Chtimes(v.blockPath(loc), ts, ts); tserr != nil {
+					v.os.stats.TickErr(tserr)
+					v.logger.WithError(tserr).Warnf("Untrash(%s): block restored, but updating its timestamp failed", loc)
+				}
 				break
 			}
 		}
